@@ -104,7 +104,11 @@ def evaluate(ctx, cases):
         ctx.count("op:" + kind)
         # implementation: build the patch from the match's own pointer
         match = next(x for x in core.outcome(lambda: list(__import__("jsonpath").finditer(c["text"], doc)))["ok"] if list(x.parts) == parts)
-        ptr = match.pointer()
+        po = core.outcome(lambda: match.pointer())
+        if "err" in po:
+            ctx.violation("every match has a pointer", where, po["err"] + ": " + po.get("msg", ""), "a JSON Pointer")
+            continue
+        ptr = po["ok"]
         # the pointer is handed over in each of the ways a caller would: the object, its text, a dict operation with its text
         for form in ("pointer-object", "pointer-text", "dict-with-text"):
             target = ptr if form == "pointer-object" else str(ptr)
